@@ -52,3 +52,30 @@ if __name__=='__main__':
             z=poly.is_zero(poly.add(Q,r,-1))
         except Exception as ex: z='EXC %r'%ex
         print(short,eq,'EQUAL' if z is True else ('DIFF '+poly.fmt(poly.reduce_trig(poly.add(Q,r,-1)),3) if z is False else z), len(Q), '%.1fs'%(time.time()-t0))
+
+def axi_euler_residuals(F, t, gamma='Gamma'):
+    # coordinates r (radial, velocity u) and z (axial, velocity w); cylindrical divergence (1/r) d(r f)/dr + d g/dz
+    rho,p_,u,w=F['rho'],F['p'],F['u'],F['w']
+    d=poly.diff; mul=poly.mul; add=poly.add
+    r=S('r'); rinv=S('r',-1)
+    def div(fr,fz): return add(mul(rinv,d(mul(r,fr),'r')), d(fz,'z'))
+    ke=add(mul(u,u),mul(w,w))
+    rhoE=add(mul(p_,poly.inverse(add(S(gamma),poly.const(-1)))), poly.scale(mul(rho,ke),Fraction(1,2)))
+    rhoH=add(rhoE,p_)
+    R={}
+    R['rho']=add(d(rho,t) if t else {}, div(mul(rho,u),mul(rho,w)))
+    R['rho_u']=add(add(d(mul(rho,u),t) if t else {}, div(mul(mul(rho,u),u),mul(mul(rho,u),w))), d(p_,'r'))
+    R['rho_w']=add(add(d(mul(rho,w),t) if t else {}, div(mul(mul(rho,w),u),mul(mul(rho,w),w))), d(p_,'z'))
+    R['rho_e']=add(d(rhoE,t) if t else {}, div(mul(rhoH,u),mul(rhoH,w)))
+    return R
+if __name__=='__main__':
+  for short,t,names in [('axi_euler',None,{}),('axi_euler_transient','t',{'rho_u':'u','rho_w':'w','rho_e':'e'})]:
+    cls='MASA::%s<double>'%short
+    coords=['r','z']+([t] if t else [])
+    F={f:ev(cls,'eval_exact_'+f,coords) for f in ['rho','p','u','w']}
+    R=axi_euler_residuals(F,t)
+    for eq,r in R.items():
+        Q=ev(cls,'eval_q_'+names.get(eq,eq),coords)
+        D=poly.add(Q,r,-1)
+        z=poly.is_zero(D)
+        print(short,eq,'EQUAL' if z else 'DIFF '+poly.fmt(poly.reduce_trig(D),3), len(Q))
